@@ -130,10 +130,30 @@ func c38Concurrent(c c38Case, r *ev.Rec) error {
 		wg.Add(1)
 		go func(g int) {
 			defer wg.Done()
+			var scratch [64]byte
 			<-start
 			for i := g; i < len(c.Strings); i += c.G {
 				s := c.Strings[i]
-				id := tb.Intern(s)
+				var id verifexport.InternID
+				if i%2 == 1 {
+					// through the []byte entry point with a scratch buffer that is reused (and
+					// overwritten) as soon as the call returns, as its contract allows
+					n := copy(scratch[:], s)
+					if n == len(s) {
+						id = tb.InternBytes(scratch[:n])
+						if q, ok := tb.QueryBytes(scratch[:n]); !ok || q != id {
+							errs <- fmt.Errorf("goroutine %d: after InternBytes(%q)=%d, QueryBytes=(%d,%v)", g, s, id, q, ok)
+							return
+						}
+						for k := range scratch[:n] {
+							scratch[k] = 'X'
+						}
+					} else {
+						id = tb.Intern(s)
+					}
+				} else {
+					id = tb.Intern(s)
+				}
 				if v := tb.Value(id); v != s {
 					errs <- fmt.Errorf("goroutine %d: Value(Intern(%q)=%d) = %q", g, s, id, v)
 					return
@@ -222,4 +242,66 @@ func TestC38_Concurrent(t *testing.T) {
 			return c38Case{Strings: ss, G: rapid.SampledFrom([]int{1, 2, 2, 3, 4, 8, 16}).Draw(t, "g")}
 		},
 		Check: c38Concurrent})
+}
+
+// TestC38_AllShortByteStrings enumerates every 1- and 2-byte string over all 256 byte values (and, in the
+// thorough tier, every 3-byte string whose bytes come from a 40-value set that mixes alphabet characters,
+// their high-bit twins and neighbours): the round trip must hold and the id must be inline exactly for
+// strings inside the inline domain.
+func TestC38_AllShortByteStrings(t *testing.T) {
+	r := ev.NewRec(t, "C38", "AllShortByteStrings", "ALL strings of 1 and 2 arbitrary bytes (256+65536), thorough: plus all 3-byte strings over 40 selected byte values (alphabet characters, their 0x80-twins, neighbours of the alphabet ranges, 0x00, 0xff); oracle: Value(Intern(s))==s, inline id (<=0) iff s is in the inline domain by the reference predicate, Query agrees, distinct strings get distinct ids; distinct by construction; non-trivial = contains a byte outside the alphabet")
+	sh, n := ev.Shard()
+	var tb verifexport.InternTable
+	ids := map[verifexport.InternID]string{}
+	var evals, nontriv int64
+	check := func(s string) bool {
+		id := tb.Intern(s)
+		v := tb.Value(id)
+		q, ok := tb.Query(s)
+		evals++
+		if !c38Inline(s) {
+			nontriv++
+		}
+		if v != s || !ok || q != id || (id <= 0) != c38Inline(s) {
+			r.Fail(t, fmt.Sprintf("%x", s), "string %q (%x): Intern=%d Value=%q Query=(%d,%v) inline-domain=%v", s, s, id, v, q, ok, c38Inline(s))
+			return false
+		}
+		if prev, dup := ids[id]; dup && prev != s {
+			r.Fail(t, fmt.Sprintf("%x", s), "id %d given to both %q and %q", id, prev, s)
+			return false
+		}
+		ids[id] = s
+		return true
+	}
+	for a := 0; a < 256; a++ {
+		if a%n != sh {
+			continue
+		}
+		if !check(string([]byte{byte(a)})) {
+			return
+		}
+		for b := 0; b < 256; b++ {
+			if !check(string([]byte{byte(a), byte(b)})) {
+				return
+			}
+		}
+	}
+	if ev.Thorough() {
+		sel := []byte{0, '-', '.', '/', '0', '9', ':', '@', 'A', 'Z', '[', '_', '`', 'a', 'z', '{', 0x7f, 0x80, 0xae, 0xaf, 0xb0, 0xb9, 0xc1, 0xda, 0xdf, 0xe1, 0xfa, 0xff, 'b', 'Y', '1', 0xe2, 0xc2, 0xb1, ' ', '\n', 0xc3, 0xa9, 'x', 'Q'}
+		for i, a := range sel {
+			if i%n != sh {
+				continue
+			}
+			for _, b := range sel {
+				for _, c := range sel {
+					if !check(string([]byte{a, b, c})) {
+						return
+					}
+				}
+			}
+		}
+	}
+	r.CountEnum(evals, nontriv, "short-byte-strings")
+	r.Sample("\xe1")
+	r.Exhaustive()
 }
